@@ -99,7 +99,7 @@ def shape(e, roles=None, depth=20):
             return roles[e.local]
         if e.is_arg:
             return "arg%d" % e.local
-        return "var:%s" % e.ty
+        return "var:%s" % short_ty(e.ty)
     if isinstance(e, Upvar):
         return "upvar:%s" % e.name
     if isinstance(e, Const):
@@ -217,6 +217,16 @@ def _strip_generics(p):
     while r.endswith("::"):
         r = r[:-2]
     return r
+
+
+def short_ty(ty):
+    """Type without module paths and lifetimes: `Enumerate<TokenIter>`, `Vec<i64>`, `&mut Vec<u8>`."""
+    if not ty:
+        return "?"
+    t = _re.sub(r"(?:[A-Za-z_][A-Za-z0-9_]*::)+", "", ty)
+    t = _re.sub(r"<'[a-z_]+>", "", t)
+    t = _re.sub(r"'[a-z_]+,? ?", "", t)
+    return t
 
 
 def callee_id(t):
